@@ -192,3 +192,52 @@ Proof.
   - apply coordinates_cursor_ascii; assumption.
   - rewrite (layout_cursor_cell rows w ps l cpos W Hp Hl Hfit Hc). rewrite (Z.add_comm (zlen ps)). reflexivity.
 Qed.
+
+(* ---- C11: where AcceptLine leaves the cursor *)
+
+Theorem coordinates_line_ascii : forall w l indent, ascii_text l = true ->
+  coordinates_line w l indent = ((zlen l + indent) mod w, (zlen l + indent) / w).
+Proof.
+  intros w l indent H. unfold coordinates_line, split_nl.
+  assert (S : forall s cur, ascii_text s = true -> split_nl_go s cur = [rev cur ++ s]).
+  { induction s as [|c s IH]; intros cur Hs; cbn [split_nl_go]; [rewrite app_nil_r; reflexivity|].
+    cbn [ascii_text forallb] in Hs. apply andb_true_iff in Hs. destruct Hs as [Hc Hs'].
+    replace (c =? 10) with false by lia. rewrite IH by exact Hs'. cbn [rev]. rewrite <- app_assoc. reflexivity. }
+  rewrite S by exact H. cbn [rev app coord_line_go]. unfold line_span. rewrite real_length_ascii by exact H.
+  cbn [Z.eqb]. rewrite Z.add_0_r. rewrite Z.add_0_l. reflexivity.
+Qed.
+
+Lemma move_back_all : forall rows cols r c n, 0 <= c <= n -> do_move rows cols (r, c) (MBack n) = (r, 0).
+Proof. intros. cbn [do_move]. unfold zmax. destruct (n <? 1) eqn:E; [f_equal; lia|]. destruct (0 <? c - n) eqn:F; f_equal; lia. Qed.
+Lemma move_up_exact : forall rows cols r c n, 0 <= r -> 0 <= n -> do_move rows cols (r + n, c) (MUp n) = (r, c).
+Proof. intros. cbn [do_move]. unfold zmax. destruct (n <? 1) eqn:E; [f_equal; lia|]. destruct (0 <? r + n - n) eqn:F; f_equal; lia. Qed.
+Lemma move_down_free : forall rows cols r c n, 0 <= n -> r + n < rows -> do_move rows cols (r, c) (MDown n) = (r + n, c).
+Proof. intros. cbn [do_move]. unfold zmin. destruct (n <? 1) eqn:E; [f_equal; lia|]. destruct (rows - 1 <? r + n) eqn:F; f_equal; lia. Qed.
+Lemma move_fwd_in : forall rows cols r c n, 0 < cols -> 0 <= c < cols -> 0 <= n ->
+  exists c', do_move rows cols (r, c) (MFwd n) = (r, c') /\ 0 <= c' < cols.
+Proof.
+  intros. cbn [do_move]. unfold zmin. destruct (n <? 1) eqn:E; [exists c; split; [reflexivity | lia]|].
+  destruct (cols - 1 <? c + n) eqn:F; eexists; (split; [reflexivity | lia]).
+Qed.
+
+(* from the cursor cell of the frame (row r0 + cursor_row, column cursor_col), whatever
+   the frame's coordinates are (any cursor, any start column within the screen), the
+   moves of AcceptLine end in column 0 of the row below the row r0 + line_rows *)
+Theorem accept_line_ends_below : forall rows cols r0 cursor_col cursor_row start_cols line_rows line_col,
+  0 < cols -> 0 <= r0 -> 0 <= cursor_row -> 0 <= cursor_col < cols -> 0 <= start_cols -> 0 <= line_rows -> 0 <= line_col ->
+  r0 + cursor_row < rows -> r0 + line_rows + 1 < rows ->
+  fold_left (do_move rows cols) (accept_line_moves cols cursor_col cursor_row start_cols line_rows line_col)
+            (r0 + cursor_row, cursor_col)
+  = (r0 + line_rows + 1, 0).
+Proof.
+  intros rows cols r0 cc cr sc lr lc W R0 CR CC SC LR LC H1 H2.
+  unfold accept_line_moves. cbn [fold_left].
+  rewrite (move_back_all rows cols (r0 + cr) cc cc) by lia.
+  rewrite (move_up_exact rows cols r0 0 cr) by lia.
+  destruct (move_fwd_in rows cols r0 0 sc W ltac:(lia) SC) as (c1 & E1 & B1). rewrite E1.
+  rewrite (move_back_all rows cols r0 c1 cols) by lia.
+  rewrite (move_down_free rows cols r0 0 lr) by lia.
+  destruct (move_fwd_in rows cols (r0 + lr) 0 lc W ltac:(lia) LC) as (c2 & E2 & B2). rewrite E2.
+  rewrite (move_back_all rows cols (r0 + lr) c2 cols) by lia.
+  cbn [do_move]. unfold zmin. destruct (rows - 1 <? r0 + lr + 1) eqn:F; f_equal; lia.
+Qed.
